@@ -4,10 +4,12 @@ use std::process::{Command, ExitCode};
 use vh_harness::{install_silent_panic_hook, run_program};
 
 const STACK: usize = 256 * 1024 * 1024;
+/// Restarts of one batch part after a hung program.
+const MAX_HANGS: usize = 6;
 
 fn usage() -> ExitCode {
     eprintln!(
-        "usage: vh run <file> | vh batch <dir> [--jobs N] | vh batch-part <dir> <k> <N> | vh gen <family|all> <seed> <count> <outdir> | vh extend <prog-file> <cut> <seed> <outdir> | vh extend --list"
+        "usage: vh run <file> | vh batch <dir> [--jobs N] | vh batch-part <dir> <k> <N> [from] | vh gen <family|all> <seed> <count> <outdir> | vh extend <prog-file> <cut> <seed> <outdir> | vh extend --list"
     );
     ExitCode::from(2)
 }
@@ -42,6 +44,10 @@ fn main() -> ExitCode {
     match args.first().map(String::as_str) {
         Some("run") if args.len() == 2 => {
             let path = PathBuf::from(&args[1]);
+            vh_harness::hang::watch(|_| {
+                println!("hang");
+                eprintln!("vh: the crate never returns from a call of this program");
+            });
             on_big_stack(move || match run_file(&path) {
                 Ok(trace) => {
                     use std::io::Write;
@@ -78,27 +84,49 @@ fn main() -> ExitCode {
                 }
             };
             let jobs = jobs.min(count.max(1));
-            let children: Vec<_> = (0..jobs)
-                .map(|k| {
-                    Command::new(&exe)
-                        .arg("batch-part")
-                        .arg(&args[1])
-                        .arg(k.to_string())
-                        .arg(jobs.to_string())
-                        .spawn()
-                })
-                .collect();
+            let spawn_part = |k: usize, from: usize| {
+                Command::new(&exe)
+                    .arg("batch-part")
+                    .arg(&args[1])
+                    .arg(k.to_string())
+                    .arg(jobs.to_string())
+                    .arg(from.to_string())
+                    .spawn()
+            };
+            let children: Vec<_> = (0..jobs).map(|k| spawn_part(k, 0)).collect();
             let mut ok = true;
-            for child in children {
-                match child.and_then(|mut c| c.wait()) {
-                    Ok(status) if status.success() => {}
-                    Ok(status) => {
-                        eprintln!("vh: batch-part exited with {status}");
-                        ok = false;
-                    }
-                    Err(e) => {
-                        eprintln!("vh: batch-part: {e}");
-                        ok = false;
+            for (k, child) in children.into_iter().enumerate() {
+                let mut child = child;
+                // A part that met a program on which the crate never returns has written `hang` as that
+                // program's trace and the index to go on from; at most MAX_HANGS restarts per part.
+                let mut hangs = 0;
+                loop {
+                    match child.and_then(|mut c| c.wait()) {
+                        Ok(status) if status.success() => break,
+                        Ok(status) if status.code() == Some(vh_harness::hang::EXIT_HANG) => {
+                            hangs += 1;
+                            let marker = Path::new(&args[1]).join(format!(".hang-{k}"));
+                            let next = std::fs::read_to_string(&marker).ok().and_then(|t| t.trim().parse::<usize>().ok());
+                            let _ = std::fs::remove_file(&marker);
+                            match next {
+                                Some(next) if hangs < MAX_HANGS => child = spawn_part(k, next),
+                                _ => {
+                                    eprintln!("vh: batch-part {k}: too many hangs, giving up on the rest of this part");
+                                    ok = false;
+                                    break;
+                                }
+                            }
+                        }
+                        Ok(status) => {
+                            eprintln!("vh: batch-part exited with {status}");
+                            ok = false;
+                            break;
+                        }
+                        Err(e) => {
+                            eprintln!("vh: batch-part: {e}");
+                            ok = false;
+                            break;
+                        }
                     }
                 }
             }
@@ -110,6 +138,20 @@ fn main() -> ExitCode {
             };
             let family = args[1].clone();
             let outdir = PathBuf::from(&args[4]);
+            {
+                // The generators run the crate while they write a program. If a directive never returns,
+                // keep the program up to and including that directive: it is the replay of the hang.
+                let (family, outdir) = (family.clone(), outdir.clone());
+                vh_harness::hang::watch(move |program| {
+                    let _ = std::fs::create_dir_all(&outdir);
+                    let name = format!("{family}-{seed}-hang.prog");
+                    let text = format!(
+                        "# family={family} seed={seed} hang: the generator stopped here, the last directive never returns\n{program}"
+                    );
+                    let _ = std::fs::write(outdir.join(&name), text);
+                    eprintln!("vh: hang while generating; program kept as {name}");
+                });
+            }
             on_big_stack(move || match vh_harness::generate::generate(&family, seed, count, &outdir) {
                 Ok(()) => ExitCode::SUCCESS,
                 Err(e) => {
@@ -130,6 +172,7 @@ fn main() -> ExitCode {
             };
             let prog = PathBuf::from(&args[1]);
             let outdir = PathBuf::from(&args[4]);
+            vh_harness::hang::watch(|_| eprintln!("vh: hang while extending"));
             on_big_stack(move || match vh_harness::generate::extend::extend(&prog, cut, seed, &outdir) {
                 Ok(_) => ExitCode::SUCCESS,
                 Err(e) => {
@@ -138,14 +181,34 @@ fn main() -> ExitCode {
                 }
             })
         }
-        Some("batch-part") if args.len() == 4 => {
+        Some("batch-part") if args.len() == 4 || args.len() == 5 => {
             let (Ok(k), Ok(n)) = (args[2].parse::<usize>(), args[3].parse::<usize>()) else {
                 return usage();
             };
             if n == 0 || k >= n {
                 return usage();
             }
+            let from = match args.get(4) {
+                Some(a) => match a.parse::<usize>() {
+                    Ok(from) => from,
+                    Err(_) => return usage(),
+                },
+                None => 0,
+            };
             let dir = PathBuf::from(&args[1]);
+            {
+                // label = "<index> <path>" of the program being run
+                let dir = dir.clone();
+                vh_harness::hang::watch(move |label| {
+                    if let Some((index, path)) = label.split_once(' ') {
+                        let _ = std::fs::write(Path::new(path).with_extension("itrace"), "hang\n");
+                        if let Ok(index) = index.parse::<usize>() {
+                            let _ = std::fs::write(dir.join(format!(".hang-{k}")), format!("{}\n", index + 1));
+                        }
+                        eprintln!("vh: {path}: the crate never returns from a call of this program");
+                    }
+                });
+            }
             on_big_stack(move || {
                 let files = match programs(&dir) {
                     Ok(files) => files,
@@ -156,9 +219,10 @@ fn main() -> ExitCode {
                 };
                 let mut ok = true;
                 for (i, path) in files.iter().enumerate() {
-                    if i % n != k {
+                    if i % n != k || i < from {
                         continue;
                     }
+                    vh_harness::hang::set_label(&format!("{i} {}", path.display()));
                     let result =
                         run_file(path).and_then(|t| std::fs::write(path.with_extension("itrace"), t));
                     if let Err(e) = result {
